@@ -44,3 +44,14 @@ CORPUS = [
     Mut('c12-benign-floor-of-a-shape', 'torchtree/evolution/bdsk.py', '', "        y = times[..., -1:] - tip_heights\n", "        y = times[..., -1:] - tip_heights\n        half = math.floor(y.shape[-1] / 2)\n", benign=True, mode='text'),
 ]
 CORPUS = [m for m in CORPUS if m.id != 'c12-kernel-detach']
+CORPUS += [
+    Mut('c12-exponential-coalescent-patched-with-a-float-mask', 'torchtree/evolution/coalescent.py', 'ExponentialCoalescent.log_prob', 'height_growth_exp = torch.exp(heights_sorted * self.growth)',
+        'height_growth_exp = torch.exp(heights_sorted * self.growth)\ngrowth_is_zero = (self.growth == 0.0).to(self.growth.dtype)\nheight_growth_exp = height_growth_exp + growth_is_zero',
+        expect=[('C12.N', 'ExponentialCoalescent.log_prob::value-patched-with-the-mask-growth_is_zero')]),
+    Mut('c12-benign-integer-event-mask-as-a-float', 'torchtree/evolution/coalescent.py', 'ExponentialCoalescent.log_prob', 'height_growth_exp = torch.exp(heights_sorted * self.growth)',
+        'height_growth_exp = torch.exp(heights_sorted * self.growth)\nis_coalescent = (node_mask_sorted == -1).to(height_growth_exp.dtype)\nheight_growth_exp = height_growth_exp * (is_coalescent * 0 + 1)', benign=True),
+    Mut('c12-epoch-grid-from-linspace-of-the-origin', 'torchtree/evolution/bdsk.py', 'PiecewiseConstantBirthDeath.log_prob', 'dtimes = (origin / m).expand(origin.shape[:-1] + (m,))',
+        'dtimes = (origin / m).expand(origin.shape[:-1] + (m,))\ngrid_check = torch.linspace(0.0, origin.reshape(()), m + 1)', expect=[('C12.D', 'PiecewiseConstantBirthDeath.log_prob::factory-scalar')]),
+    Mut('c12-benign-unit-grid-scaled-by-the-origin', 'torchtree/evolution/bdsk.py', 'PiecewiseConstantBirthDeath.log_prob', 'dtimes = (origin / m).expand(origin.shape[:-1] + (m,))',
+        'dtimes = (origin / m).expand(origin.shape[:-1] + (m,))\ngrid_check = torch.linspace(0.0, 1.0, m + 1) * origin', benign=True),
+]
